@@ -200,7 +200,17 @@ def d2_expansion(facts, push_key='gate::Gate::push_basic_gates', num_key='gate::
         ns = [ar] if ar is not None else list(range(0, 9))
         for n in ns:
             try:
-                pushed = count_pushes(facts, hir.stmts_of(pt[v]['body']), {'n': n}, circ_id)
+                try:
+                    pushed = count_pushes(facts, hir.stmts_of(pt[v]['body']), {'n': n}, circ_id)
+                except Unknown:
+                    if v != 'ParityPhase':
+                        raise
+                    sim = []
+                    try:
+                        _pp_run(hir.stmts_of(pt[v]['body']), {'qs': list(range(n))}, circ_id, sim)
+                    except _PP as ex2:
+                        raise Unknown(str(ex2))
+                    pushed = len(sim)
                 adv = _ival(nt[v]['body'], {'n': n})
                 out.append((v, n, pushed, adv, None))
             except Unknown as ex:
@@ -310,6 +320,185 @@ def seq_unitary(seq, n):
     return m
 
 
+# ---------------------------------------------------------------- parity-phase expansion: exact phase-polynomial semantics for every arity 0..8
+
+class _PP(Exception):
+    pass
+
+
+def _pp_val(e, env):
+    """value of an expression of the ParityPhase arm for a concrete arity: ints, lists (self.qs and its slices / windows), 'PHASE'"""
+    e = hir.strip(e)
+    k = e.get('k')
+    v = hir.lit_int(e)
+    if v is not None:
+        return v
+    l = hir.local(e)
+    if l:
+        if l[1] in env:
+            return env[l[1]]
+        raise _PP('unbound local %s' % l[0])
+    if k == 'Field' and hir.local_name(e['e']) == 'self':
+        if e['name'] == 'qs':
+            return list(env['qs'])
+        if e['name'] == 'phase':
+            return 'PHASE'
+    if k == 'Cast':
+        return _pp_val(e['e'], env)
+    if k == 'Binary' and e['op'] in ('Add', 'Sub', 'Mul'):
+        a, b = _pp_val(e['l'], env), _pp_val(e['r'], env)
+        if not (isinstance(a, int) and isinstance(b, int)):
+            raise _PP('arithmetic on non-integers')
+        r = a + b if e['op'] == 'Add' else (a - b if e['op'] == 'Sub' else a * b)
+        if r < 0:
+            raise _PP('usize underflow in `%s` for arity %d' % (hir.pp(e)[:20], len(env['qs'])))
+        return r
+    if k == 'Index':
+        base = _pp_val(e['e'], env)
+        rb = hir.range_bounds(e['i'])
+        if rb is not None:
+            lo = _pp_val(rb[0], env) if rb[0] is not None else 0
+            hi = _pp_val(rb[1], env) if rb[1] is not None else len(base)
+            hi += 1 if rb[2] else 0
+            if not (0 <= lo <= hi <= len(base)):
+                raise _PP('slice %d..%d out of range for arity %d' % (lo, hi, len(env['qs'])))
+            return base[lo:hi]
+        i = _pp_val(e['i'], env)
+        if not isinstance(base, (list, tuple)) or not isinstance(i, int) or not 0 <= i < len(base):
+            raise _PP('index out of range for arity %d' % len(env['qs']))
+        return base[i]
+    items = hir.vec_literal(e)
+    if items is not None:
+        return [_pp_val(x, env) for x in items]
+    if k == 'MethodCall':
+        nm = e['name']
+        r = _pp_val(e['recv'], env)
+        if nm in ('iter', 'into_iter', 'copied', 'cloned', 'to_vec', 'as_slice') and isinstance(r, list):
+            return r
+        if nm == 'rev' and isinstance(r, list):
+            return list(reversed(r))
+        if nm == 'len' and isinstance(r, list):
+            return len(r)
+        if nm == 'windows' and isinstance(r, list):
+            w = _pp_val(e['args'][0], env)
+            return [r[i:i + w] for i in range(0, len(r) - w + 1)] if w >= 1 else []
+        if nm == 'enumerate' and isinstance(r, list):
+            return [(i, x) for i, x in enumerate(r)]
+        if nm in ('skip', 'take') and isinstance(r, list):
+            n2 = _pp_val(e['args'][0], env)
+            return r[n2:] if nm == 'skip' else r[:n2]
+        if nm == 'zip' and isinstance(r, list):
+            o = _pp_val(e['args'][0], env)
+            return list(zip(r, o))
+        if nm in ('last', 'first') and isinstance(r, list):
+            return ('Some', r[-1] if nm == 'last' else r[0]) if r else ('None',)
+        if nm == 'is_empty' and isinstance(r, list):
+            return not r
+    raise _PP('expression `%s`' % hir.pp(e)[:40])
+
+
+def _pp_bind(pat, val, env):
+    k = pat.get('k')
+    if k == 'Bind':
+        env[pat['id']] = val
+        if pat.get('sub'):
+            _pp_bind(pat['sub'], val, env)
+        return True
+    if k == 'Ref':
+        return _pp_bind(pat['sub'], val, env)
+    if k == 'Wild':
+        return True
+    if k == 'Tuple' and isinstance(val, (tuple, list)) and len(pat['sub']) == len(val):
+        return all(_pp_bind(p2, v, env) for p2, v in zip(pat['sub'], val))
+    if k == 'TupleStruct' and (hir.pat_ctor(pat) or '').endswith('Some'):
+        if isinstance(val, tuple) and val and val[0] == 'Some':
+            return _pp_bind(pat['sub'][0], val[1], env)
+        return False
+    if k == 'Slice' and isinstance(val, list) and len(pat.get('sub') or []) == len(val):
+        return all(_pp_bind(p2, v, env) for p2, v in zip(pat['sub'], val))
+    raise _PP('pattern %s' % hir.pp_pat(pat))
+
+
+def _pp_run(stmts, env, circ_id, out):
+    for s in stmts:
+        s0 = hir.strip(s) if s.get('k') != 'Let' else s
+        k = s0.get('k')
+        if k == 'Let':
+            if s0.get('init') is None:
+                raise _PP('let without initialiser')
+            _pp_bind(s0['pat'], _pp_val(s0['init'], env), env)
+        elif k == 'If':
+            c = hir.strip(s0['cond'])
+            if c.get('k') == 'LetCond':
+                e2 = dict(env)
+                taken = _pp_bind(c['pat'], _pp_val(c['init'], env), e2)
+            else:
+                b = _pp_val(c, env) if c.get('k') != 'Binary' or c['op'] not in ('Lt', 'Le', 'Gt', 'Ge', 'Eq', 'Ne') else \
+                    {'Lt': lambda a, b2: a < b2, 'Le': lambda a, b2: a <= b2, 'Gt': lambda a, b2: a > b2, 'Ge': lambda a, b2: a >= b2, 'Eq': lambda a, b2: a == b2, 'Ne': lambda a, b2: a != b2}[c['op']](_pp_val(c['l'], env), _pp_val(c['r'], env))
+                if c.get('k') == 'Unary' and c['op'] == 'Not':
+                    b = not _pp_val(c['e'], env)
+                taken, e2 = bool(b), dict(env)
+            br = s0['then'] if taken else s0.get('else')
+            if br is not None:
+                _pp_run(hir.stmts_of(br), e2 if taken else dict(env), circ_id, out)
+        elif k == 'For':
+            for x in _pp_val(s0['iter'], env):
+                e2 = dict(env)
+                _pp_bind(s0['pat'], x, e2)
+                _pp_run(hir.stmts_of(s0['body']), e2, circ_id, out)
+        elif k == 'Block':
+            _pp_run(hir.stmts_of(s0), dict(env), circ_id, out)
+        elif k == 'MethodCall' and hir.callee(s0) in ('circuit::Circuit::push', 'circuit::Circuit::push_back') and hir.local(s0['recv']) and hir.local(s0['recv'])[1] == circ_id:
+            g = hir.strip(s0['args'][0])
+            c = hir.callee(g)
+            if c == 'gate::Gate::new':
+                out.append((rtable.variant_of(g['args'][0], GT), _pp_val(g['args'][1], env), None))
+            elif c == 'gate::Gate::new_with_phase':
+                out.append((rtable.variant_of(g['args'][0], GT), _pp_val(g['args'][1], env), _pp_val(g['args'][2], env)))
+            else:
+                raise _PP('pushed gate `%s`' % hir.pp(g)[:40])
+        else:
+            raise _PP('statement `%s`' % hir.pp(s0)[:50])
+
+
+def parity_phase_semantics(facts):
+    """for every arity n = 0..8 the gates emitted for ParityPhase(qs = [0..n), phase) are CNOTs on distinct wires plus ZPhase gates such that the
+    CNOT network is the identity and the only phase term is `phase` on the parity of ALL n wires (exact phase-polynomial semantics over F2).
+    Returns (ok, message, sample); ok None = not understood."""
+    variants = rtable.enum_variants(facts, GT)
+    pf = facts['fns']['gate::Gate::push_basic_gates']
+    pm = rtable.enum_matches(pf, GT)
+    if len(pm) != 1:
+        return None, 'no single match over GType in push_basic_gates', None
+    pt, _ = rtable.match_table(pm[0], GT, variants)
+    circ_id = [p['id'] for p in pf['params'] if p.get('k') == 'Bind' and p['name'] != 'self'][0]
+    counts = {}
+    for n in range(0, 9):
+        out = []
+        try:
+            _pp_run(hir.stmts_of(pt['ParityPhase']['body']), {'qs': list(range(n))}, circ_id, out)
+        except _PP as ex:
+            return None, 'parity-phase expansion not understood for arity %d: %s (not-established-by-recognised-idiom)' % (n, ex), None
+        wires = [frozenset([i]) for i in range(n)]
+        terms = {}
+        for kind, qs, ph in out:
+            if kind == 'CNOT' and len(qs) == 2 and qs[0] != qs[1] and all(isinstance(q, int) and 0 <= q < n for q in qs):
+                wires[qs[1]] = wires[qs[1]] ^ wires[qs[0]]
+            elif kind == 'ZPhase' and len(qs) == 1 and isinstance(qs[0], int) and 0 <= qs[0] < n and ph == 'PHASE':
+                terms[wires[qs[0]]] = terms.get(wires[qs[0]], 0) + 1
+            else:
+                return False, 'for arity %d the expansion emits %s on %s (phase %s): only CNOTs on two distinct wires of the gate and ZPhase(self.phase) are admissible' % (n, kind, qs, ph), None
+        want_terms = {frozenset(range(n)): 1} if n else {}
+        if wires != [frozenset([i]) for i in range(n)]:
+            bad = [i for i in range(n) if wires[i] != frozenset([i])]
+            return False, ('for a parity-phase gate on %d qubits the CNOTs are not undone: wire(s) %s end up holding the parity of %s — the uncompute ladder must be the compute ladder in reverse order; '
+                           'emitted: %s' % (n, bad, [sorted(wires[i]) for i in bad], [(k2, q) for k2, q, _p in out])), None
+        if terms != want_terms:
+            return False, 'for a parity-phase gate on %d qubits the phase is applied to the parity of %s (expected exactly once, on all %d qubits)' % (n, [sorted(t) for t in terms], n), None
+        counts[n] = len(out)
+    return True, '', {'arities': '0..8', 'gates_emitted': counts}
+
+
 def d2_structure(facts):
     """semantic checks of the three compound expansions; [(key, ok, why, sample)]"""
     res = []
@@ -362,7 +551,12 @@ def d2_structure(facts):
             ok = 'self.qs[0..(sz - 1)]' in l1[2].replace('(0..(sz - 1))', '0..(sz - 1)') or 'sz - 1' in l1[2]
             lets = [n for n in hir.nodes(body) if n.get('k') == 'LetCond']
             ok = ok and any(hir.strip(n['init']).get('name') == 'last' for n in lets)
-    res.append(('ParityPhase/ladder', ok, why, None))
+    sok, swhy, ssample = parity_phase_semantics(facts)
+    if sok is not None:
+        res.append(('ParityPhase/phase-polynomial', sok, swhy, ssample))
+    else:
+        # the semantic evaluation did not understand the arm: fall back to the recognised fan-in idiom, fail closed otherwise
+        res.append(('ParityPhase/phase-polynomial', ok, swhy if not ok else '', None))
     return res
 
 
